@@ -90,6 +90,8 @@ type WLayout struct {
 	// SparseSubrs: the Subrs array starts with unused (null) slots
 	SparseSubrs bool
 	CutShort    bool
+	// DeepChains counts the charstrings wrapped into a call chain 10 deep (filled while encoding)
+	DeepChains int
 }
 
 // ---------------------------------------------------------------- charstring encoding
@@ -386,7 +388,7 @@ func (e *csEnc) assemble(factor int) []byte {
 					depth = p.depth
 				}
 			}
-			if depth+1 > 8 {
+			if depth+1 > 10 {
 				continue
 			}
 			endsChar := len(body) > 0 && body[len(body)-1] == 14 && j == len(pieces)
@@ -403,6 +405,30 @@ func (e *csEnc) assemble(factor int) []byte {
 			np = append(np, pieces[j:]...)
 			pieces = np
 		}
+	}
+	if factor > 0 && len(pieces) > 0 && e.rng.IntN(10) == 0 {
+		// a chain of calls down to the documented nesting limit: "Subrs calls
+		// may be nested 10 deep" (Type 1 book, section 6.4)
+		depth := 0
+		var body []byte
+		for _, p := range pieces {
+			body = append(body, p.bytes...)
+			if p.depth > depth {
+				depth = p.depth
+			}
+		}
+		for depth < 10 {
+			if !(len(body) > 0 && body[len(body)-1] == 14) || e.rng.IntN(2) == 0 {
+				body = append(body, 11) // return
+			}
+			k := e.addSubr(body, depth+1)
+			enc := &csEnc{rng: e.rng, lay: e.lay}
+			enc.int(int64(k))
+			body = append(enc.cur, 10)
+			depth++
+		}
+		e.lay.DeepChains++
+		pieces = []piece{{body, depth}}
 	}
 	var out []byte
 	for _, p := range pieces {
